@@ -51,7 +51,7 @@ T = {
  "C14": (True, "E1", "stateless exhaustive exploration of every next/next_frames(k)/is_exhausted history from every (capacity, prefill, start offset, source length) initial state on the real Buffered + explicit-state stateright BFS to fixpoint via witness replay; plus sources that fail once (caught) at every pull position x every short call sequence",
          "340 initial states in quick (capacity 1..4; thorough 1..5) x every (start,len) prefill x source length 0..2cap+1; every history to depth 5 (quick) / 7 (thorough); merged BFS on (ring start, ring len, pulled, delivered) to fixpoint; until_exhausted() from every initial state; oracle: prefill ++ source ++ equilibrium, pulls in units of capacity only on empty, exact exhaustion flag.",
          "Capacities above 5 and sources longer than 2cap+1 are not explored. Trusted: rustc/LLVM, stateright BFS.", "DESIGN.md §4 C14"),
- "C08": (True, "E2", "exhaustive enumeration of ratio histories (every per-frame ratio sequence over 4-letter alphabets to length 5/6, 21 constant ratios x every constructor, every setter switch point) x source lengths x interpolators x frame formats on the real Converter with an instrumented source, against exact rational positions; plus sources that fail once (caught) at every pull position for 9 ratios",
+ "C08": (True, "E2", "exhaustive enumeration of ratio histories (every per-frame ratio sequence over 4-letter alphabets to length 5/6, 21 constant ratios x every constructor, every setter switch point) x source lengths x interpolators x frame formats on the real Converter with an instrumented source, against exact rational positions; plus sources that fail once (caught) at every pull position for 9 ratios and converters replaced mid-history by clone() / clone_from() copies",
          "For every configuration of the finite space the converter is run to exhaustion + 3: source pulls must equal floor(P_n) with P_n an exact rational (i128 x 2^-100), floor output = frame at the pulled index, linear output = exact blend within 4 ulp / 1 LSB and inside the two frames' interval, ratio 1 exact, is_exhausted() before every output, output counts for constant ratios; non-positive scale panics; labelled long runs for non-dyadic ratios.",
          "Ratios come from finite alphabets (dyadic ones are checked exactly, others with a float tolerance of n*2^-50); sources of <=8 frames. Trusted: rustc/LLVM, IEEE division for mirrored ratio arithmetic.", "DESIGN.md §4 C08"),
  "C16": (True, "E2", "exhaustive enumeration of node configurations (input count x buffers per input x output buffers x wrapper type x consecutive calls) on the real stock nodes inside real graphs, against per-node reference functions on position-coded dyadic buffers, plus every assignment of buffer content classes (tiny, subnormal, huge, signed zeros, infinities, NaN payloads) to the inputs of each stock node",
@@ -107,7 +107,7 @@ def main():
         ],
         "checks": checks,
         "not_applicable": na,
-        "notes": "All checks are bounded-exhaustive explorations of the real dasp code (no sampling); ./check is the driver (child process, wall/address-space caps, crash/hang/panic replay). Every check except C07 runs in a release build and again with debug assertions and overflow checks on (dbg parts, quick bounds); C15 in all four combinations; C11 also in the no_std build. known_findings.txt lists fixed defects and the two recorded findings (C07 graph.regrow-on-different-graph, C18 sinc.int-partial-sum-overflow); seeded/ holds 150 property-breaking changes (all detected by the quick check of their property), benign/ 58 behaviour-preserving ones (all quiet on the properties they preserve).",
+        "notes": "All checks are bounded-exhaustive explorations of the real dasp code (no sampling); ./check is the driver (child process, wall/address-space caps, crash/hang/panic replay). Every check except C07 runs in a release build and again with debug assertions and overflow checks on (dbg parts, quick bounds); C15 in all four combinations; C11 also in the no_std build. known_findings.txt lists fixed defects and the two recorded findings (C07 graph.regrow-on-different-graph, C18 sinc.int-partial-sum-overflow); seeded/ holds 152 property-breaking changes (all detected by the quick check of their property), benign/ 58 behaviour-preserving ones (all quiet on the properties they preserve).",
     }
     with open(os.path.join(ROOT, "MANIFEST.json"), "w") as f:
         json.dump(man, f, indent=1)
